@@ -238,6 +238,15 @@ Proof.
     eapply inv5_out; [exact H5 | reflexivity | reflexivity | reflexivity | cbn; auto].
 Qed.
 
+Lemma inv12345_refuse : forall s b s1, Inv12345 s -> 1 <= n_jobs (c s) -> 1 <= b ->
+  (phase s = StartFirst \/ phase s = StartLoop) -> dispatch_shape s b false s1 true ->
+  Inv12345 (finalize s1 Finished true true).
+Proof.
+  intros s b s1 [H H5] Hnj Hb Hph Hsh. split; [eapply inv1234_refuse; eassumption|].
+  destruct H as [[[_ H2] _] _]. pose proof (inv5_dispatch _ _ _ _ _ H2 H5 Hsh) as H5'.
+  eapply inv5_out; [exact H5' | reflexivity | reflexivity | reflexivity | cbn; auto].
+Qed.
+
 Lemma inv12345_close_drain : forall s r, Inv12345 s -> phase s = Draining r -> Inv12345 (abandon (set_out s (jobs s) (jset s) [] false Finished)).
 Proof.
   intros s r [H H5] Hp. split; [eapply inv1234_close_drain; eassumption|].
@@ -329,6 +338,8 @@ Proof.
   - exact inv12345_exhaust.
   - exact inv12345_want.
   - exact inv12345_close_try.
+  - intros s b s1 H Hnj Hb Hph Hsh. eapply inv12345_refuse; eauto.
+  - intros s b s1 H Hnj Hb Hph Hsh. eapply inv12345_refuse; eauto.
   - exact inv12345_close_drain.
   - exact inv12345_timeout.
   - exact inv12345_yield.
